@@ -15,6 +15,19 @@ package main
 //	    track without any symptom, the defect's trigger was observed in the
 //	    instrumented copy, and leaving just this defect unrepaired brings
 //	    symptoms back.
+//	    When the track as a whole cannot be explained that way (another
+//	    defect, e.g. the wrap heuristic, split the recording), single
+//	    symptoms still are (attributeHandedOver): every block of the track is
+//	    byte for byte a sample the pinned builder released, in release order
+//	    (the recorder dropped samples but made none of its own); a block that
+//	    equals no frame is then the builder's when the pinned builder released
+//	    those very bytes, the repaired builder releases no such sample, and
+//	    leaving just this defect unrepaired brings it back; a missing frame is
+//	    the builder's when the pinned builder never released it intact and the
+//	    repaired one does.  (H264 shape of the ring wrap: a two packet FU-A
+//	    frame released without its last packet depacketises to 0 bytes, and
+//	    pion's H264Packet keeps the orphaned fragment and prepends it to the
+//	    next fragmented NAL unit.)
 //	sender-report-moves-origin
 //	    The session has a sender report after recording began, and the same
 //	    session replayed against the real recorder WITHOUT its sender reports
@@ -306,6 +319,140 @@ func (v *verdict) cleanWith(t *track, out []sample) bool {
 	return true
 }
 
+var builderDefects = map[string]string{
+	"A": "samplebuilder:ring-wrap-off-by-one",
+	"B": "samplebuilder:duplicate-of-newest-releases-all",
+	"C": "samplebuilder:h264-stap-a-split",
+}
+
+// handedOver: every block of the track is byte for byte a sample the pinned
+// builder released, in release order within each file: the recorder dropped
+// samples (before a keyframe, before its origin, around a split) but made none
+// of its own.
+func (v *verdict) handedOver(t *track, pin []sample) bool {
+	file, i := -1, 0
+	for _, smp := range v.per[t.id] {
+		if smp.file != file {
+			file, i = smp.file, 0
+		}
+		for i < len(pin) && string(pin[i].data) != string(smp.data) {
+			i++
+		}
+		if i == len(pin) {
+			return false
+		}
+		i++
+	}
+	return len(v.per[t.id]) > 0
+}
+
+// releases: which frames a builder released intact, and how often it released
+// a sample (by signature, as in issue.sig) that equals no frame.
+func (t *track) releases(out []sample) (intact []bool, inexact map[string]int) {
+	intact, inexact = make([]bool, len(t.frames)), map[string]int{}
+	_, ms := t.checkSamples(out, nil, false)
+	for i, m := range ms {
+		if m.frame >= 0 {
+			intact[m.frame] = true
+		} else {
+			inexact["x:"+sig(out[i].data)]++
+		}
+	}
+	return
+}
+
+// attributeHandedOver files single symptoms of a track under defects of the
+// pinned sample builder when the track as a whole could not be: see the
+// comment at the top of this file.  trig: how often the instrumented copy saw
+// each defect exercised on the packets the recorder received.
+func (s *session) attributeHandedOver(v *verdict, t *track, pin []sample, trig map[string]int) {
+	if !v.handedOver(t, pin) {
+		return
+	}
+	pinIntact, pinInexact := t.releases(pin)
+	all, _ := t.probe(true, true, true)
+	allIntact, allInexact := t.releases(all)
+	// what comes out when just one defect is left unrepaired
+	var triggered []string
+	oneIntact, oneInexact := map[string][]bool{}, map[string]map[string]int{}
+	for _, x := range []string{"A", "B", "C"} {
+		if trig[x] == 0 {
+			continue
+		}
+		triggered = append(triggered, x)
+		out, _ := t.probe(x != "A", x != "B", x != "C")
+		oneIntact[x], oneInexact[x] = t.releases(out)
+	}
+	exercised := fmt.Sprintf("defect exercised %d times: ring wrap %d, duplicate of newest %d, partition head inside a sample %d", trig["A"]+trig["B"]+trig["C"], trig["A"], trig["B"], trig["C"])
+	repaired := fmt.Sprintf("a repaired builder on the same packets releases %d samples", len(all))
+	if len(allInexact) == 0 {
+		repaired += ", every one of them a frame sent"
+	}
+	used := map[string]bool{}
+	var needed []string
+	var lastF *finding
+	for _, f := range v.open() {
+		if f.trk != t.id {
+			continue
+		}
+		var need []string
+		var how string
+		switch {
+		case len(f.sig) > 2 && f.sig[:2] == "x:":
+			// a block that equals no frame
+			if pinInexact[f.sig] == 0 || allInexact[f.sig] > 0 {
+				continue
+			}
+			for _, x := range triggered {
+				if oneInexact[x][f.sig] > 0 {
+					need = append(need, x)
+				}
+			}
+			how = "the recorder wrote what it was handed: the pinned sample builder, run alone on the packets the recorder received, releases these very bytes (and every other block of the track, in this order); " + repaired + " and none like this one"
+			if t.codec == "h264" && trig["A"] > 0 {
+				how += "; H264 shape of the ring wrap: a FU-A frame released without its last packet depacketises to nothing or to less than the frame, and pion's H264Packet keeps the orphaned fragments and prepends them to the next fragmented NAL unit"
+			}
+		case (f.symptom == "frame-missing" || f.symptom == "not-flushed") && f.frame >= 0:
+			if pinIntact[f.frame] || !allIntact[f.frame] {
+				continue
+			}
+			for _, x := range triggered {
+				if !oneIntact[x][f.frame] {
+					need = append(need, x)
+				}
+			}
+			how = "the recorder never got this frame: the pinned sample builder, run alone on the packets the recorder received, does not release it intact (every block of the track is a sample it did release, in this order); " + repaired + ", this frame among them"
+		default:
+			continue
+		}
+		back := "; leaving just this defect unrepaired brings the symptom back ("
+		if len(need) == 0 {
+			// only the defects together bring it back
+			need = triggered
+			back = "; no single defect left unrepaired brings the symptom back, all those exercised together do ("
+		}
+		f.key = builderDefects[need[0]]
+		used[need[0]] = true
+		for _, x := range need {
+			found := false
+			for _, y := range needed {
+				found = found || x == y
+			}
+			if !found {
+				needed = append(needed, x)
+			}
+		}
+		lastF = f
+		f.what += " - " + how + back + exercised + ")"
+	}
+	for _, x := range needed {
+		if !used[x] {
+			// every necessary defect gets reported
+			v.findings = append(v.findings, &finding{symptom: lastF.symptom, trk: t.id, frame: -1, key: builderDefects[x], what: t.codec + " track: also needed to explain the symptoms of this track (removing any one of the defects alone does not make them go away)"})
+		}
+	}
+}
+
 // staleInfo: which keyframes the pinned builder released only after the first
 // packet of another keyframe had arrived, and when the first keyframe that is
 // not stale came out.
@@ -479,9 +626,14 @@ func (s *session) attribute(v *verdict, rerun func() (*session, *verdict)) {
 			continue
 		}
 		if !v.faithful(t, pr.pin) {
+			// the track as a whole is not what a correct recorder makes of the
+			// pinned builder's releases (a split recording, say): single
+			// symptoms may still be the builder's beyond doubt
+			s.attributeHandedOver(v, t, pr.pin, trig)
 			continue
 		}
 		if all, _ := t.probe(true, true, true); !v.cleanWith(t, all) {
+			s.attributeHandedOver(v, t, pr.pin, trig)
 			continue
 		}
 		// which defects are necessary
@@ -502,9 +654,8 @@ func (s *session) attribute(v *verdict, rerun func() (*session, *verdict)) {
 				}
 			}
 		}
-		names := map[string]string{"A": "samplebuilder:ring-wrap-off-by-one", "B": "samplebuilder:duplicate-of-newest-releases-all", "C": "samplebuilder:h264-stap-a-split"}
 		for _, x := range need {
-			pr.causes = append(pr.causes, names[x])
+			pr.causes = append(pr.causes, builderDefects[x])
 		}
 		i := 0
 		for _, f := range v.open() {
